@@ -117,6 +117,7 @@ struct Reg {
         std::vector<int> vars; for (int i = 0; i < c.dim; i++) vars.push_back(i); if (c.tr) vars.push_back(3);
         int n = (tier && (c.dim + (c.tr ? 1 : 0)) <= 3) ? 3 : 2;
         std::vector<Pt> pts = grid(vars, n, GENERIC_VALS);
+        pts.push_back(far_point());
         pts.push_back(Pt(0, 0, 0, 0, true));
         return pts;
       };
